@@ -1,5 +1,10 @@
 """Property-breaking mutations used to validate the monitors (applied to scratch worktrees only)."""
 SM = "src/chuk_mcp/protocol/messages/send_message.py"
+ER = "src/chuk_mcp/protocol/types/errors.py"
+BA = "src/chuk_mcp/protocol/features/batching.py"
+FJ = "src/chuk_mcp/protocol/fast_json.py"
+SC = "src/chuk_mcp/transports/stdio/stdio_client.py"
+JR = "src/chuk_mcp/protocol/messages/json_rpc_message.py"
 
 MUTANTS = [
     # ---- C01 ----
@@ -21,4 +26,30 @@ MUTANTS = [
     # ---- C18 ----
     {"prop": "C18", "name": "drop_id_filter_crosstalk", "edits": [(SM, "        if msg_id != req_id:", "        if msg_id is None:")]},
     {"prop": "C18", "name": "owner_discards_own", "edits": [(SM, "        if msg_id != req_id:", "        if msg_id != req_id or (isinstance(getattr(msg, 'result', None), dict) and getattr(msg, 'result').get('tag') == 'caller-1'):")]},
+    # ---- C07 ----
+    {"prop": "C07", "name": "move_code_between_sets", "edits": [(ER, "    MCP_TOOL_NOT_FOUND,  # Tool not found is permanent\n", ""), (ER, "    MCP_RESOURCE_NOT_FOUND,  # Resource might become available\n", "    MCP_RESOURCE_NOT_FOUND,  # Resource might become available\n    MCP_TOOL_NOT_FOUND,\n")]},
+    {"prop": "C07", "name": "classify_by_retryable_set", "edits": [(ER, "    return code not in NON_RETRYABLE_ERRORS", "    return code in RETRYABLE_ERRORS")]},
+    {"prop": "C07", "name": "ping_reraises", "edits": [("src/chuk_mcp/protocol/messages/ping/send_messages.py", "        # failed\n        return False", "        # failed\n        if getattr(e, 'code', 0) == -32601:\n            raise\n        return False")]},
+    {"prop": "C07", "name": "absent_code_default_changes_class", "edits": [(SM, "code = error.get(\"code\", -32603)", "code = error.get(\"code\", -32603) if error.get(\"code\", 0) != -32099 else -32600")]},
+    {"prop": "C07", "name": "helper_swallows_error", "edits": [("src/chuk_mcp/protocol/messages/tools/send_messages.py", "    response = await send_message(", "    response = await _safe_send_message(", ), ("src/chuk_mcp/protocol/messages/tools/send_messages.py", "async def send_tools_list(", "async def _safe_send_message(**kw):\n    try:\n        return await send_message(**kw)\n    except Exception as e:\n        if getattr(e, 'code', None) == -32004:\n            return {'tools': []}\n        raise\n\n\nasync def send_tools_list(")]},
+    {"prop": "C07", "name": "server_range_retryable", "edits": [(ER, "    return code not in NON_RETRYABLE_ERRORS", "    return code not in NON_RETRYABLE_ERRORS or code == -32000")]},
+    {"prop": "C07", "name": "code_stringified", "edits": [(SM, "            raise RetryableError(msg, code)", "            raise RetryableError(msg, str(code))")]},
+    # ---- C13 ----
+    {"prop": "C13", "name": "day_gt_instead_of_ge", "edits": [(BA, "month == 6 and day >= 18", "month == 6 and day > 18")]},
+    {"prop": "C13", "name": "month_ge", "edits": [(BA, "elif year == 2025 and month > 6:", "elif year == 2025 and month >= 6:")]},
+    {"prop": "C13", "name": "year_ge", "edits": [(BA, "        if year > 2025:", "        if year > 2026:")]},
+    {"prop": "C13", "name": "deliver_rejected_members", "edits": [(SC, "            await self._send_error_response(error_response)\n            return\n", "            await self._send_error_response(error_response)\n"), (SC, "            if self.batch_processor.batching_enabled:\n                logger.debug(\n                    f\"Processing batch", "            if True:\n                logger.debug(\n                    f\"Processing batch")]},
+    {"prop": "C13", "name": "no_rejection_line", "edits": [(SC, "            await self._send_error_response(error_response)\n            return\n", "            return\n")]},
+    {"prop": "C13", "name": "stale_batching_flag", "edits": [(BA, "        self.batching_enabled = supports_batching(version)\n\n        if old_batching", "        self.batching_enabled = self.batching_enabled and supports_batching(version)\n\n        if old_batching")]},
+    {"prop": "C13", "name": "batch_break_on_bad_member", "edits": [(SC, "                    except Exception as exc:\n                        logger.error(\"Error processing batch item: %s\", exc)", "                    except Exception as exc:\n                        logger.error(\"Error processing batch item: %s\", exc)\n                        break")]},
+    {"prop": "C13", "name": "rejection_code_wrong", "edits": [(BA, "\"code\": -32600,  # Invalid Request", "\"code\": -32601,  # Invalid Request")]},
+    {"prop": "C13", "name": "revert_parse_message_junk_fix", "edits": [(JR, "        if message.method is not None or message.id is not None:\n            return message", "        return message")]},
+    {"prop": "C13", "name": "tracking_skips_set_version", "edits": [("src/chuk_mcp/protocol/messages/initialize/send_messages.py", "    if client and hasattr(client, \"set_protocol_version\"):", "    if client and hasattr(client, \"set_protocol_version\") and result.protocolVersion < \"2025-06-01\":")]},
+    # ---- C17 ----
+    {"prop": "C17", "name": "orjson_append_newline", "edits": [(FJ, "            options = 0\n            if kwargs.get(\"indent\"):\n                options |= _orjson.OPT_INDENT_2\n\n            return _orjson.dumps(obj, option=options).decode(\"utf-8\")", "            options = _orjson.OPT_APPEND_NEWLINE\n            if kwargs.get(\"indent\"):\n                options |= _orjson.OPT_INDENT_2\n\n            return _orjson.dumps(obj, option=options).decode(\"utf-8\")")]},
+    {"prop": "C17", "name": "stdlib_default_indent", "edits": [(FJ, "    else:\n        # Use stdlib json\n        return _stdlib_json.dumps(obj, **kwargs)", "    else:\n        # Use stdlib json\n        kwargs.setdefault(\"indent\", 2)\n        return _stdlib_json.dumps(obj, **kwargs)")]},
+    {"prop": "C17", "name": "orjson_returns_bytes", "edits": [(FJ, "return _orjson.dumps(obj, option=options).decode(\"utf-8\")", "return _orjson.dumps(obj, option=options)")]},
+    {"prop": "C17", "name": "stdlib_loads_float_ints", "edits": [(FJ, "        if isinstance(s, bytes):\n            s = s.decode(\"utf-8\")\n        return _stdlib_json.loads(s)\n\n\ndef dump(", "        if isinstance(s, bytes):\n            s = s.decode(\"utf-8\")\n        return _stdlib_json.loads(s, parse_int=lambda x: int(x) if len(x) < 17 else float(x))\n\n\ndef dump(")]},
+    {"prop": "C17", "name": "orjson_strict_integer_no_fallback", "edits": [(FJ, "            options = 0\n            if kwargs.get(\"indent\"):\n                options |= _orjson.OPT_INDENT_2\n\n            return _orjson.dumps(obj, option=options).decode(\"utf-8\")\n        except Exception as e:", "            options = _orjson.OPT_STRICT_INTEGER\n            if kwargs.get(\"indent\"):\n                options |= _orjson.OPT_INDENT_2\n\n            return _orjson.dumps(obj, option=options).decode(\"utf-8\")\n        except RecursionError as e:")]},
+    {"prop": "C17", "name": "stdlib_loads_latin1_bytes", "edits": [(FJ, "        # Use stdlib json\n        if isinstance(s, bytes):\n            s = s.decode(\"utf-8\")", "        # Use stdlib json\n        if isinstance(s, bytes):\n            s = s.decode(\"latin-1\")")]},
 ]
